@@ -480,6 +480,7 @@ class SessionCheck:
         rep.evaluations += len(judged)
         verdicts, _ = validate_histories("Trace_Session", events)
         rep.traces += len(verdicts)
+        self.corruption_selftest(rep, events, verdicts)
         for e in judged:
             v = verdicts.get(e["id"])
             if v is None:
@@ -495,6 +496,51 @@ class SessionCheck:
                 continue
             rep.violation(f"session event {e['ev']} iid={e.get('iid')} path={e.get('path')} value={str(e.get('value'))[:120]}: clauses {v} :: "
                           f"{A.render(e['type'])[:300]} mode={e['mode']} obs={str(e['obs'])[:300]}", {"kind": "session-event", "event": e, "clauses": v})
+
+    @staticmethod
+    def corruption_selftest(rep, events, verdicts):
+        """Vacuity guard of Trace_Session: accepted histories are judged again with ONE integer leaf of the logged state changed in
+        their last event; that event must then be rejected (clause frame)."""
+        import copy
+
+        def first_int(v):
+            if isinstance(v, dict):
+                if v.get("k") == "int" and "mag" in v:
+                    return v
+                return next((r for r in map(first_int, v.values()) if r is not None), None)
+            if isinstance(v, list):
+                return next((r for r in map(first_int, v) if r is not None), None)
+            return None
+
+        hist, cur = [], []
+        for e in events:
+            if e["ev"] == "New":
+                if cur:
+                    hist.append(cur)
+                cur = []
+            else:
+                cur.append(e)
+        if cur:
+            hist.append(cur)
+        out, targets = [], []
+        for h in hist:
+            if len(targets) >= 6:
+                break
+            if any(verdicts.get(e["id"]) for e in h) or first_int(h[-1].get("snap")) is None:
+                continue
+            h2 = copy.deepcopy(h)
+            leaf = first_int(h2[-1]["snap"])
+            leaf["mag"] = [1] if not leaf["mag"] else [leaf["mag"][0] ^ 1 or 2] + leaf["mag"][1:]
+            out.append({"ev": "New", "endian": "<"})
+            out += h2
+            targets.append(h2[-1]["id"])
+        if not targets:
+            return
+        v2, _ = validate_histories("Trace_Session", out)
+        silent = [t for t in targets if "frame" not in (v2.get(t) or [])]
+        if silent:
+            raise MachineryError(f"corruption self-test: {len(silent)} of {len(targets)} histories with a changed logged state were ACCEPTED by Trace_Session")
+        rep.extra["corruption_selftest"] = f"{len(targets)} accepted histories re-judged with one integer of the logged state changed: all rejected (frame)"
 
     def replay(self, path):
         print("replay: re-run ./check", self.prop, "with the seed in the file name")
